@@ -207,41 +207,40 @@ Proof. exact wallet_accounts_closed_form_from. Qed.
 Print Assumptions C13_wallet_manager_replaces.
 
 (* ------------------------------------------------------------------------------------------- *)
-(* Full match.
+(* Full match, every list of specifiers (plain, wallet-only, regular expressions, with or without
+   anchors, with or without alternation).  The only hypothesis is about the parse oracle: in a
+   part without any `|` character it finds a single alternative (true of every parser).
 
-   FULL STATEMENT (refuted below): for every list of specifiers, an offered account is admitted iff
-   its wallet/account name fully matches (wallet part)/(account part) of some specifier.
-
-   PROVED (_partial): the same for specifiers in which the parse oracle finds no top-level
-   alternation in either part ([dirk_simple]: both parts parse to a single alternative; groups
-   such as (a|b) are single alternatives).  dirk: an account is admitted by a refresh iff it is in
-   the universe, offered, its wallet is one the manager opens, and either the short circuit fires
-   or some specifier is about its wallet and matches its whole name.  What is missing: top-level
-   alternation (known finding C13-alternation-escapes-anchor). *)
-Theorem C13_full_match_partial :
+   dirk: an account is admitted by a refresh iff it is in the universe, offered, its wallet is one
+   the manager opens, and either the short circuit fires or some specifier is about its wallet
+   and its WHOLE wallet/account name matches (wallet part)/(account part), the alternatives of
+   each part grouped. *)
+Theorem C13_full_match :
   forall parse (cfg : config) (offered : list N) (id : N),
     c_mgr cfg = Dirk ->
     (forall path, In path (c_paths cfg) ->
        forall p0 p1, dirk_parts path = Some (p0, p1) ->
-         (forall l, parse p0 = Some l -> exists r, l = [r]) /\ (forall l, parse p1 = Some l -> exists r, l = [r])) ->
+         (has_bar p0 = false -> forall l, parse p0 = Some l -> exists r, l = [r]) /\
+         (has_bar p1 = false -> forall l, parse p1 = Some l -> exists r, l = [r])) ->
     (In id (admitted parse cfg offered) <->
      exists a, In a (c_universe cfg) /\ a_id a = id /\ In id offered /\
                In (a_wallet a) (wallet_names cfg) /\
                (dirk_short_circuit parse (c_paths cfg) a = true \/
                 exists path, In path (c_paths cfg) /\
-                  exists p0 p1 rw ra,
+                  exists p0 p1 ws accs,
                     dirk_parts path = Some (p0, p1) /\ p0 = a_wallet a /\
-                    parse p0 = Some [rw] /\ parse p1 = Some [ra] /\
-                    full_lang (Seq rw (Seq slash ra)) (codes (full_name a)))).
+                    parse p0 = Some ws /\ parse p1 = Some accs /\
+                    full_lang (Seq (alts ws) (Seq slash (alts accs))) (codes (full_name a)))).
 Proof. exact dirk_admitted_full_match. Qed.
-Print Assumptions C13_full_match_partial.
+Print Assumptions C13_full_match.
 
-(* The short circuit fires only when exactly one compiled specifier is about the wallet and its
-   account part is .* ; when the wallet's name read as an expression matches itself and .* has
-   its usual meaning, it then admits only accounts whose whole name (newline-free) matches that
-   specifier: the short circuit is an optimisation, not an extra door. *)
+(* The short circuit (wallet names without `|`) fires only when exactly one compiled specifier is
+   about the wallet and its account part is .* ; when the wallet's name read as an expression
+   matches itself and .* has its usual meaning, it then admits only accounts whose whole
+   (newline-free) name matches that specifier: an optimisation, not an extra door. *)
 Theorem C13_short_circuit_sound :
   forall parse (paths : list string) (a : account),
+    has_bar (a_wallet a) = false ->
     dirk_short_circuit parse paths a = true ->
     (exists path p1, In path paths /\ dirk_parts path = Some (a_wallet a, p1) /\ p1 = ".*"%string /\
        exists p, dirk_pattern parse path = Some p /\
@@ -250,50 +249,54 @@ Theorem C13_short_circuit_sound :
         parse ".*"%string = Some [Star (Cls [(0, 9); (11, 1114111)])] ->
         Forall (fun c => in_cls c [(0, 9); (11, 1114111)] = true) (codes (a_name a)) ->
         exists path, In path paths /\
-          exists p0 p1 rw ra,
+          exists p0 p1 ws accs,
             dirk_parts path = Some (p0, p1) /\ p0 = a_wallet a /\
-            parse p0 = Some [rw] /\ parse p1 = Some [ra] /\
-            full_lang (Seq rw (Seq slash ra)) (codes (full_name a))).
+            parse p0 = Some ws /\ parse p1 = Some accs /\
+            full_lang (Seq (alts ws) (Seq slash (alts accs))) (codes (full_name a))).
 Proof.
-  intros parse paths a H. split.
-  - exact (dirk_short_circuit_spec parse paths a H).
-  - intros Hw Hd Hn. exact (dirk_short_circuit_sound parse paths a Hw Hd Hn H).
+  intros parse paths a Hb H. split.
+  - exact (dirk_short_circuit_spec parse paths a Hb H).
+  - intros Hw Hd Hn. exact (dirk_short_circuit_sound parse paths a Hb Hw Hd Hn H).
 Qed.
 Print Assumptions C13_short_circuit_sound.
 
-(* wallet manager: the wallet part is used as written, a `$` the user wrote at the end of the
-   account part is kept instead of adding one (so the oracle's expression for that part must be
-   end-anchored: [ends_anchored], true of every r$), and the account must unlock. *)
-Theorem C13_full_match_partial_wallet :
+(* wallet manager: the wallet part is used as written, every pattern is tried on every opened
+   wallet, and the account must unlock. *)
+Theorem C13_full_match_wallet :
   forall parse (cfg : config) (offered : list N) (id : N),
     c_mgr cfg = Wallet ->
     (forall path, In path (c_paths cfg) ->
        forall p0 p1, wallet_parts path = Some (p0, p1) ->
-         (forall l, parse p0 = Some l -> exists r, l = [r]) /\ (forall l, parse p1 = Some l -> exists r, l = [r]) /\
-         (has_end_anchor p1 = true -> forall ra, parse p1 = Some [ra] ->
-            forall b e s, lang ra b e s -> e = true)) ->
+         (has_bar p0 = false -> forall l, parse p0 = Some l -> exists r, l = [r]) /\
+         (has_bar p1 = false -> forall l, parse p1 = Some l -> exists r, l = [r])) ->
     (In id (admitted parse cfg offered) <->
      exists a, In a (c_universe cfg) /\ a_id a = id /\ In id offered /\
                In (a_wallet a) (wallet_names cfg) /\ a_locked a = false /\
                exists path, In path (c_paths cfg) /\
-                 exists p0 p1 rw ra,
+                 exists p0 p1 ws accs,
                    wallet_parts path = Some (p0, p1) /\
-                   parse p0 = Some [rw] /\ parse p1 = Some [ra] /\
-                   full_lang (Seq rw (Seq slash ra)) (codes (full_name a))).
+                   parse p0 = Some ws /\ parse p1 = Some accs /\
+                   full_lang (Seq (alts ws) (Seq slash (alts accs))) (codes (full_name a))).
 Proof. exact wallet_admitted_full_match. Qed.
-Print Assumptions C13_full_match_partial_wallet.
+Print Assumptions C13_full_match_wallet.
 
-(* What "the whole name matches wallet/account" means: the name splits at a slash into a text the
-   wallet part matches from the beginning of the name and a text the account part matches up to
-   the end of the name -- nothing before, nothing after, nothing in between. *)
+(* What "the whole name matches wallet/account" means: the name splits at a slash into a text that
+   one alternative of the wallet part matches from the beginning of the name and a text that one
+   alternative of the account part matches up to the end of the name -- nothing before, nothing
+   after, nothing in between. *)
 Theorem C13_full_match_meaning :
-  forall (rw ra : re) (s : list N),
-    full_lang (Seq rw (Seq slash ra)) s <->
-    exists w n, s = w ++ 47 :: n /\ lang rw true false w /\ lang ra false true n.
-Proof. exact full_parts_split. Qed.
+  forall (ws accs : list re) (s : list N),
+    full_lang (Seq (alts ws) (Seq slash (alts accs))) s <->
+    exists w n, s = w ++ 47 :: n /\
+                (exists rw, In rw ws /\ lang rw true false w) /\
+                (exists ra, In ra accs /\ lang ra false true n).
+Proof.
+  intros ws accs s. rewrite full_parts_split. split; intros (w & n & Hs & Hw & Hn); exists w, n;
+    (split; [exact Hs|]); split; apply lang_alts; assumption.
+Qed.
 Print Assumptions C13_full_match_meaning.
 
-(* The anchored pattern of one alternation-free specifier, found anywhere in a name by
+(* The anchored pattern of one specifier whose parts are grouped, found anywhere in a name by
    regexp.MatchString, is the full match of its two parts. *)
 Theorem C13_anchored_pattern_is_full_match :
   forall (rw ra : re) (s : list N),
@@ -302,25 +305,23 @@ Theorem C13_anchored_pattern_is_full_match :
 Proof. intros rw ra s. rewrite search_spec. exact (anchored_parts_full rw ra s). Qed.
 Print Assumptions C13_anchored_pattern_is_full_match.
 
-(* REFUTED in full: with the specifier W/a|b (oracle: a|b has the two alternatives a, b) both
-   managers admit W/ax and W/xb, which do not match W/(a|b).  Known finding
-   C13-alternation-escapes-anchor; corpus/C13/alternation.json replays it on the implementation. *)
-Theorem C13_full_match_refuted :
-  exists (parse : string -> option (list re)) (paths : list string) (a1 a2 : account) (spec : re),
-    parse "a|b"%string = Some [Chr 97; Chr 98] /\ spec = Seq (lit "W") (Seq slash (Alt (Chr 97) (Chr 98))) /\
-    full_name a1 = "W/ax"%string /\ full_name a2 = "W/xb"%string /\
-    dirk_admits (dirk_patterns parse paths) a1 = true /\
-    dirk_admits (dirk_patterns parse paths) a2 = true /\
-    wallet_admits (wallet_patterns parse paths) a1 = true /\
-    wallet_admits (wallet_patterns parse paths) a2 = true /\
-    ~ full_lang spec (codes (full_name a1)) /\ ~ full_lang spec (codes (full_name a2)).
+(* Why the grouping matters (the statement the un-repaired managers REFUTED; fixed in the
+   repository, witnesses corpus/C13/alternation-escapes-anchor-*.json): the text ^W/a|b$ spliced
+   without grouping reads (^W/a)|(b$) and is found in W/ax and in zzxb, which do not match
+   W/(a|b).  With the grouping both managers admit exactly W/a and W/b. *)
+Theorem C13_full_match_ungrouped_refuted :
+  exists (ws accs : list re) (s1 s2 : list N),
+    ws = [lit "W"] /\ accs = [Chr 97; Chr 98] /\ s1 = codes "W/ax" /\ s2 = codes "zzxb" /\
+    search (textual_concat [[Bol]; ws; [slash]; accs; [Eol]]) s1 = true /\
+    search (textual_concat [[Bol]; ws; [slash]; accs; [Eol]]) s2 = true /\
+    ~ full_lang (Seq (alts ws) (Seq slash (alts accs))) s1 /\
+    ~ full_lang (Seq (alts ws) (Seq slash (alts accs))) s2.
 Proof.
-  exists oracle_ab, ["W/a|b"%string], acct_W_ax, acct_W_xb, spec_W_a_or_b.
-  destruct alternation_escapes_dirk as (H1 & H2 & H3 & H4).
-  destruct alternation_escapes_wallet as (H5 & H6).
+  exists [lit "W"], [Chr 97; Chr 98], (codes "W/ax"), (codes "zzxb").
+  destruct ungrouped_alternation_escapes as (H1 & H2 & H3 & H4).
   repeat (split; [reflexivity || assumption|]). assumption.
 Qed.
-Print Assumptions C13_full_match_refuted.
+Print Assumptions C13_full_match_ungrouped_refuted.
 
 (* ------------------------------------------------------------------------------------------- *)
 (* Non-vacuity. *)
@@ -343,18 +344,26 @@ Definition ex_val (pk idx act exit : N) (sl : bool) : val :=
      v_slashed := sl; v_bal := 32 |}.
 Definition ex_vals : list val := [ex_val 1 70 5 1000 false; ex_val 2 71 5 20 true; ex_val 3 72 5 1000 false].
 
-(* the hypotheses of C13_full_match_partial hold of the example and the theorem's two sides are
+(* the hypotheses of C13_full_match hold of the example and the theorem's two sides are
    inhabited: of four offered accounts exactly the two whose whole name matches are admitted
    (xacc1 and acc12 only contain a match) *)
 Example C13_example_admitted :
-  (forall path, In path (c_paths (ex_cfg Dirk)) -> dirk_simple ex_oracle path)
+  (forall path, In path (c_paths (ex_cfg Dirk)) -> dirk_sound ex_oracle path)
   /\ admitted ex_oracle (ex_cfg Dirk) [1; 2; 3; 4] = [1; 2]
   /\ admitted ex_oracle (ex_cfg Wallet) [1; 2; 3; 4] = [1; 2].
 Proof.
   split; [|split; vm_compute; reflexivity].
   intros path [<- | []] p0 p1 H. vm_compute in H. injection H as <- <-.
-  split; intros l Hl; vm_compute in Hl; injection Hl as <-; eexists; reflexivity.
+  split; intros _ l Hl; vm_compute in Hl; injection Hl as <-; eexists; reflexivity.
 Qed.
+
+(* with an alternation: exactly the two named accounts, in both managers *)
+Example C13_example_alternation :
+  map (fun n => dirk_admits (dirk_patterns oracle_ab ["W/a|b"%string]) (acct_W n 1))
+      ["a"; "b"; "ax"; "xb"; "c"]%string = [true; true; false; false; false] /\
+  map (fun n => wallet_admits (wallet_patterns oracle_ab ["W/a|b"%string]) (acct_W n 1))
+      ["a"; "b"; "ax"; "xb"; "c"]%string = [true; true; false; false; false].
+Proof. exact grouped_alternation_example. Qed.
 
 (* a history: everything known; then the signer offers nothing and the node fails; then the node
    answers nothing -- the answers to the same query stay what they were; account 2 (slashed,
